@@ -20,13 +20,14 @@ import (
 )
 
 type Call struct {
-	ID    int    `json:"id"`
-	Kind  string `json:"kind"` // rows | empty | bad | force
-	Chan  string `json:"chan"` // nil | buf | unbuf | aband
-	Rows  int    `json:"rows,omitempty"`
-	Parts int    `json:"parts,omitempty"` // rows are spread over this many partitions (>=1)
-	Pad   int    `json:"pad,omitempty"`   // extra payload bytes per row
-	BadAt int    `json:"bad_at,omitempty"` // index of the unmarshalable row for kind=bad (others are good)
+	ID      int    `json:"id"`
+	Kind    string `json:"kind"` // rows | empty | bad | force
+	Chan    string `json:"chan"` // nil | buf | unbuf | aband
+	Rows    int    `json:"rows,omitempty"`
+	Parts   int    `json:"parts,omitempty"`    // rows are spread over this many partitions (>=1)
+	Pad     int    `json:"pad,omitempty"`      // extra payload bytes per row
+	PartOff int    `json:"part_off,omitempty"` // the batch's partitions are p<PartOff> .. p<PartOff+Parts-1>
+	BadAt   int    `json:"bad_at,omitempty"`   // index of the unmarshalable row for kind=bad (others are good)
 }
 
 type Op struct {
@@ -89,10 +90,10 @@ type Result struct {
 // ---------------------------------------------------------------------------
 
 type stopCtx struct {
-	done   chan struct{}
-	mu     sync.Mutex
-	fired  bool
-	funcs  []func()
+	done    chan struct{}
+	mu      sync.Mutex
+	fired   bool
+	funcs   []func()
 	firedAt time.Time
 }
 
@@ -153,16 +154,16 @@ func (c *stopCtx) runAfterFuncs() {
 // ---------------------------------------------------------------------------
 
 type run struct {
-	p      *Program
-	tr     *h.Tracer
-	gates  *h.Gates
-	roles  *h.Roles
-	engine *bs.BloomSearchEngine
-	meta   bs.MetaStore
-	data   bs.DataStore
+	p       *Program
+	tr      *h.Tracer
+	gates   *h.Gates
+	roles   *h.Roles
+	engine  *bs.BloomSearchEngine
+	meta    bs.MetaStore
+	data    bs.DataStore
 	rawMeta bs.MetaStore
 	rawData bs.DataStore
-	dir    string
+	dir     string
 
 	mu        sync.Mutex
 	chans     map[int]chan error
@@ -383,7 +384,7 @@ func (r *run) rowsFor(c Call) []map[string]any {
 		row := map[string]any{
 			"_b": fmt.Sprintf("b%d", c.ID),
 			"i":  i,
-			"p":  fmt.Sprintf("p%d", i%parts),
+			"p":  fmt.Sprintf("p%d", c.PartOff+i%parts),
 		}
 		if c.Pad > 0 {
 			row["pad"] = strings.Repeat("x", c.Pad)
